@@ -45,12 +45,17 @@ Theorem C16_exact_column : forall a p q r,
 Proof. exact exact_column. Qed.
 Print Assumptions C16_exact_column.
 
-Theorem C16_mid_surrogate_goes_to_eol : forall a p c q r,
+Theorem C16_mid_surrogate_rounds_up : forall a p c q r,
   line_shape a (p ++ c :: q) r -> len16 c = 2 ->
   position_to_utf8 (a ++ (p ++ c :: q) ++ r) (count_lf a) (len16s p + 1)
-  = len8s a + len8s (p ++ c :: q).
-Proof. exact mid_surrogate_goes_to_eol. Qed.
-Print Assumptions C16_mid_surrogate_goes_to_eol.
+  = len8s a + len8s (p ++ [c]).
+Proof. exact mid_surrogate_rounds_up. Qed.
+Print Assumptions C16_mid_surrogate_rounds_up.
+
+Theorem C16_position_mono_in_line : forall t pl j k,
+  j <= k -> position_to_utf8 t pl j <= position_to_utf8 t pl k.
+Proof. exact position_mono_in_line. Qed.
+Print Assumptions C16_position_mono_in_line.
 
 Theorem C16_range_selects_span : forall a b c,
   let t := a ++ b ++ c in
